@@ -288,7 +288,7 @@ theorem qAt_mono_append (q : List (Addr × Nat × Nat)) (e : Addr × Nat × Nat)
     the chain's unbonding time (E2). -/
 theorem ArriveQ.step (s s' : Sys) (m : Msg) (rest0 subs : List Msg) (inv : ArriveQ s (m :: rest0))
     (hi : HistInv s.hub) (hl : s.hub.legacy = [])
-    (he2 : isHubWd m = true → s.hub.unbonding = s.chain.unbondingTime)
+    (he2 : ∀ sender funds, m = .wasm sender hubA (.hub .withdrawUnbonded) funds → s.hub.unbonding = s.chain.unbondingTime)
     (hx : s.handle m = .ok (s', subs)) : ArriveQ s' (subs ++ rest0) := by
   obtain ⟨htime, hub, hqsame, hqund⟩ := handle_queue s s' m subs hx
   obtain ⟨A, rest, hq, hA, hrest, hle⟩ := inv.split
@@ -486,7 +486,7 @@ theorem ArriveQ.step (s s' : Sys) (m : Msg) (rest0 subs : List Msg) (inv : Arriv
         omega
       | withdraw hwm hp hw =>
         obtain ⟨hunb, h1', hpw, _, hle1, hh, hms⟩ := withdraw_spec s.hub s'.hub s1.hubEnv sender subs hw
-        have e2 := he2 (by rw [heq, hwm]; rfl)
+        have e2 := he2 sender funds (by rw [heq, hwm])
         have rc := release_complete s.hub h1' _ _ hi hpw
         have d := delWait_fold_shape (h1'.finished sender).2 sender h1'
         have hhist' : s'.hub.hist = h1'.hist := by rw [hh]; exact d.1
